@@ -486,20 +486,30 @@ Proof.
   split; [exact Hv | exact Ho].
 Qed.
 
-(* the constructor of a resumed fit: with the history lists created first it always succeeds and its
-   sanity evaluation is an evaluation like any other (recorded when successful and asked for) *)
-Lemma construct_early I (m : @model V) (L : @lik V) (lp : @lprior V) fl r h pbuf :
-  exists st, construct N I m L lp fl r false (fresh h) pbuf = Some st /\
-             heap st = h /\
-             view st = spec_history N m L fl [buf h pbuf] \/ (ll_intact I L fl -> False).
+(* the constructor of a resumed fit.  History lists created first: it never raises and its sanity
+   evaluation is an ordinary call.  Created afterwards (late): it raises exactly when that evaluation
+   succeeds and wants to be recorded; otherwise the fitness starts with an empty history. *)
+Lemma construct_early I (m : @model V) (L : @lik V) (lp : @lprior V) fl r (st : @state V) pbuf :
+  construct N I m L lp fl r false st pbuf = Some (fst (step N I m L lp fl r st (OCall pbuf))).
+Proof. reflexivity. Qed.
+
+Lemma construct_late_raises_iff I (m : @model V) (L : @lik V) (lp : @lprior V) fl r h pbuf :
+  construct N I m L lp fl r true (fresh h) pbuf = None <->
+  (fl_store fl = true /\ exists ll b, evaluate N m L (buf h pbuf) = EvOk ll b).
 Proof.
-  exists (fst (step N I m L lp fl r (fresh h) (OCall pbuf))).
-  destruct (classic_ll_intact_dec I L fl) as [Hll|Hn]; [left|right; exact Hn].
-  split; [reflexivity|]. split; [rewrite step_heap; reflexivity|].
-  pose proof (run_history_plain N I m L lp fl r [OCall pbuf] (fresh h) Hll) as H.
-  unfold run in H. simpl run_with in H.
-  destruct (step N I m L lp fl r (fresh h) (OCall pbuf)) as [st1 out] eqn:Es. simpl fst in *.
-  rewrite H; [reflexivity | right; reflexivity | intros b ll []].
+  unfold construct. rewrite step_hist_call. simpl hist. simpl heap. simpl app.
+  destruct (evaluate N m L (buf h pbuf)) as [e| |ll b] eqn:Ev; simpl.
+  - split; [discriminate | intros [_ (ll & b & H)]; discriminate].
+  - split; [discriminate | intros [_ (ll & b & H)]; discriminate].
+  - destruct (fl_store fl); simpl.
+    + split; [intros _; split; eauto | reflexivity].
+    + split; [discriminate | intros [H _]; discriminate].
+Qed.
+
+Lemma construct_late_otherwise I (m : @model V) (L : @lik V) (lp : @lprior V) fl r h pbuf st :
+  construct N I m L lp fl r true (fresh h) pbuf = Some st -> st = fresh h.
+Proof.
+  unfold construct. destruct (length _ =? length _)%nat; [|discriminate]. intro H; injection H as <-. reflexivity.
 Qed.
 
 (* all in one: what a successful / unsuccessful plain call returns *)
